@@ -840,6 +840,11 @@ package stree
 //@   at after "cur := path[i]": assert [C01,C04] ncalls(f) == old(ncalls(f)) && ord(compare, cur.X, key) >= 0 ==> forall k int :: {k in cur.keys} k in cur.keys && k >= rank(compare, key) ==> k >= rank(compare, cur.X)
 //@   at after "cur := path[i]": assert [C01,C04] ncalls(f) == old(ncalls(f)) && ord(compare, cur.X, key) >= 0 ==> forall k int :: {k in n.keys} inK(n, k) && k >= rank(compare, key) ==> k >= rank(compare, cur.X)
 //@   loop 1: decreases i + 1
+//@   at after "cur := path[i]": ghost c0 = ncalls(f)
+//@   at return 2: assert [C01,C04] ncalls(f) > c0 && c0 >= old(ncalls(f)) && callarg(f, c0) == cur.X
+//@   at return 2: assert [C01,C04] c0 > old(ncalls(f)) ==> forall k int :: {k in n.keys} inK(n, k) ==> !(rank(compare, callarg(f, c0 - 1)) < k && k < rank(compare, callarg(f, c0)))
+//@   at return 2: assert [C01,C04] ncalls(f) > c0 + 1 ==> forall k int :: {k in n.keys} inK(n, k) ==> !(rank(compare, callarg(f, c0)) < k && k < rank(compare, callarg(f, c0 + 1)))
+//@   at return 2: assert [C01,C04] forall a int, b int, k int :: {callarg(f, a), callarg(f, b), k in n.keys} c0 + 1 <= a && b == a + 1 && b < ncalls(f) && inK(n, k) ==> !(rank(compare, callarg(f, a)) < k && k < rank(compare, callarg(f, b)))
 //@
 //@ func (*Tree).InorderAfter
 //@   seq yield
